@@ -146,17 +146,24 @@ def build_shadow(flavour="normal"):
             shutil.rmtree(bdir, True)
             open(okfile, "w").write(key)
         # (re)create the symlinks every time: python files may have been added/removed
+        # (only what is wrong is touched: processes that already use this shadow - parallel workers of one check, other
+        #  checks - import lazily from it, and a window without __init__.py makes `import ImageD11` a namespace package)
         pk = os.path.join(shadow, "ImageD11")
-        for e in os.listdir(pk):
-            pth = os.path.join(pk, e)
-            if os.path.islink(pth):
-                os.unlink(pth)
+        want = {}
         for e in os.listdir(os.path.join(REPO, "ImageD11")):
             if e.startswith("_cImageD11") and e.endswith(".so"):
                 continue
             if e == "__pycache__":
                 continue
-            os.symlink(os.path.join(REPO, "ImageD11", e), os.path.join(pk, e))
+            want[e] = os.path.join(REPO, "ImageD11", e)
+        for e in os.listdir(pk):
+            pth = os.path.join(pk, e)
+            if os.path.islink(pth) and (e not in want or os.readlink(pth) != want[e]):
+                os.unlink(pth)
+        for e, target in want.items():
+            pth = os.path.join(pk, e)
+            if not os.path.lexists(pth):
+                os.symlink(target, pth)
         os.utime(dest, None)
     finally:
         fcntl.flock(lock, fcntl.LOCK_UN)
